@@ -520,7 +520,7 @@ template <class T> struct TR
         else if (op == "move")
         { // implicit move constructor; what is left in the moved-from object is printed
             std::unique_ptr<igris::ring<T>> c(new igris::ring<T>(std::move(x)));
-            ret = S(acc::bufsize(x)) + " " + S(acc::rsize(x));
+            ret = S(acc::bufsize(x, 0)) + " " + S(acc::rsize(x)); // (without the member: a moved-from ring is predicted to own nothing)
             t = std::move(c);
             o.tag("move");
         }
@@ -683,6 +683,7 @@ static void run_rc(const std::vector<std::string> &w, out &o)
 // (second translation unit harness/C03_life.cpp)
 void run_lifeprobe(const std::vector<std::string> &w, out &o);
 void run_lifecount(const std::vector<std::string> &w, out &o);
+void run_arr(const std::vector<std::string> &w, out &o);
 
 // ================================================================== bytering
 // igris/datastruct/bytering.h: the pointer version of the byte ring
@@ -1009,7 +1010,8 @@ static void run_op(const std::vector<std::string> &w, const std::string &, out &
 {
     if (w.empty()) { o.result = "bad-op"; return; }
     if (w[0] == "lifeprobe" && w.size() >= 2) { run_lifeprobe(w, o); return; }
-    if (w[0] == "lifecount" && w.size() == 3) { run_lifecount(w, o); return; }
+    if ((w[0] == "lifecount" || w[0] == "lifeviol") && w.size() == 3) { run_lifecount(w, o); return; }
+    if (w[0] == "arr" && w.size() == 3) { run_arr(w, o); return; }
     if (w[0] == "reset" && w.size() >= 2)
     { // one-line cases of round 3: `reset <kind> ...` (a case of its own: crash / replay granularity = the line)
         std::vector<std::string> v(w.begin() + 1, w.end());
